@@ -63,8 +63,57 @@ def gcase(r):
     return "(mkCfg %s 1 %d, %s)" % (core.gbool(r["cfg"]["wait"]), r["chain"], core.glist(ggroup(g) for g in r["groups"]))
 
 
+def gpoll(r):
+    steps = []
+    for st in r["steps"]:
+        a = "(Some %s)" % st["ans"]["n"] if st["ans"]["kind"] == "num" else "None"
+        pub = core.glist("(%s, %s)" % (p[0], p[1]) for p in st["pub"])
+        steps.append("(%s, (%s, %s, %s))" % (a, st["last"], pub, core.gbool(st["err"])))
+    return "(%s, %s)" % (r["first"], core.glist(steps))
+
+
+def run_poller(ctx):
+    """the real pollBlocks on scripted answers; monitor: only heads the node served are published, under the tag of the mode"""
+    rc, out, trace = core.harness_pkg(ctx, "ethereum", "^TestVerifC10Poller$", timeout=600)
+    rows = core.read_jsonl(trace)
+    if rc != 0 or not rows:
+        ctx.problem("correspondence", "go harness C10 poller", out[-1500:])
+        return []
+    good = []
+    npolls = 0
+    pubs = 0
+    for r in rows:
+        if r.get("panic"):
+            ctx.problem("monitor", "pollBlocks panicked: %s" % r["panic"], "first lastBlock %s" % r["first"], concrete=True, replay=r, key="poller:panic")
+            continue
+        ok = True
+        for st in r["steps"]:
+            npolls += 1
+            pubs += len(st["pub"])
+            want_tag = "finalized" if r["finalized"] else "latest"
+            if st["tag"] != want_tag:
+                ctx.problem("monitor", "the poller asked for block %r in %s mode" % (st["tag"], want_tag), "", concrete=True, replay=r, key="poller:block-tag")
+                ok = False
+                break
+            for p in st["pub"]:
+                if st["ans"]["kind"] != "num" or p[0] != st["ans"]["n"]:
+                    ctx.problem("monitor", "the poller published head %s that the node did not serve in that poll (%s)" % (p[0], st["ans"]),
+                                "", concrete=True, replay=r, key="poller:published-head-not-served")
+                    ok = False
+            if st["last"] == "nil":
+                ok = False
+                ctx.problem("correspondence", "pollBlocks returned a nil block", "", replay=r)
+        if ok:
+            good.append(r)
+    ctx.cov["poller_cases"] = len(rows)
+    ctx.cov["poller_polls"] = npolls
+    ctx.cov["poller_published"] = pubs
+    ctx.evaluations += npolls
+    return good
+
+
 def run(ctx):
-    st = core.run_extract(ctx, ["evm_watcher", "evm_by_tx"])
+    st = core.run_extract(ctx, ["evm_watcher", "evm_by_tx", "evm_poller"])
     if os.environ.get("VERIF_C10_SKIP_COQ") != "1":
         core.coq_prove(ctx, "C10", extra_targets=["model/EvmWatcherCase.vo"])
         if ctx.tier == "thorough":
@@ -136,8 +185,19 @@ def run(ctx):
                             "observed": r["groups"]}, key=key)
     ctx.cov["monitor_messages"] = nmon
     ctx.cov["monitor_classes"] = {k: v[0] for k, v in seen.items()}
+    prows = []
+    if not ctx.replay:
+        prows = run_poller(ctx)
     if os.environ.get("VERIF_C10_SKIP_COQ") == "1":
         return
+    if prows:
+        pok = "Definition ok (c : Z * list (option Z * (Z * list (Z * bool) * bool))) : bool := let '(l, st) := c in check_polls l st."
+        pbad = core.run_cases(ctx, "cases_C10p", prows, HDR, "Z * list (option Z * (Z * list (Z * bool) * bool))", gpoll, pok, nshards=4)
+        if pbad is not None:
+            for i in pbad[:3]:
+                ctx.problem("correspondence", "model poll_blocks differs from BlockPollConnector.pollBlocks (lastBlock / published heads / error)",
+                            "first lastBlock %s" % prows[i]["first"], concrete=False, replay=prows[i])
+            ctx.cov["poller_mismatches"] = len(pbad)
     # ---- model vs implementation, history by history, inside Coq
     good = [r for r in rows if not r.get("harness")]
     okdef = "Definition ok (c : cfg * list cgroup) : bool := let '(w, gs) := c in check_history w gs."
